@@ -23,7 +23,8 @@ CLAIMS = {
         "Deductive proof (Verus, unbounded, all u64 inputs in the stated range) that the MMR position "
         "arithmetic of core/src/core/pmmr/pmmr.rs, whose function bodies are re-extracted verbatim from "
         "/repo on every run, agrees with an explicitly defined postorder tree (height, subtree ranges, leaf "
-        "counts, leaf index <-> position, parent/sibling). Merkle-proof soundness is covered by a bounded "
+        "counts, leaf index <-> position, parent/sibling); and that PMMR::push -- appending to the MMR -- writes the new leaf and then, for exactly as long as the current node is a right child in that tree, its parent at exactly the parent "
+        "position as node_hash(stored hash of exactly the tree-sibling, current hash, parent position), stopping at the new peak (sizes < 2^61). Merkle-proof soundness is covered by a bounded "
         "Kani stand-in only and is labelled bounded in the evidence.",
         "Trusted: vstd arithmetic/bit lemmas and the leading_zeros/count_ones axioms; blake2b is outside "
         "(ideal-hash assumption for the bounded Merkle unit). PMMR::validate and rewindable_pmmr not covered.",
